@@ -29,6 +29,7 @@ type drainReq struct {
 	replyStep       int
 	dur             time.Duration
 	noReply         bool // published without a reply subject: the server discards it (nothing to answer to)
+	callsStop       bool // a "shut down" request: its handler calls Stop on the server that runs it
 	bigReply        bool // its reply is larger than the broker's max_payload: the connection refuses it
 }
 
@@ -56,6 +57,9 @@ func (p *drainProc) Process(in, out *frugal.FProtocol) error {
 		time.Sleep(r.dur)
 		simrt.Yield(site)
 	}
+	if r.callsStop && p.h.stopFn != nil {
+		p.h.stopFn()
+	}
 	r.handlerDoneStep = p.h.s.Step
 	if err := out.WriteResponseHeader(ctx); err != nil {
 		return err
@@ -68,9 +72,10 @@ func (p *drainProc) Process(in, out *frugal.FProtocol) error {
 }
 
 type drainHarness struct {
-	rc   *RunCtx
-	s    *simrt.Sim
-	reqs map[int]*drainReq
+	rc     *RunCtx
+	s      *simrt.Sim
+	reqs   map[int]*drainReq
+	stopFn func()
 }
 
 func init() { Register("natsdrain", natsdrainHarness) }
@@ -239,10 +244,24 @@ func natsdrainHarness(rc *RunCtx) {
 		}
 		// the request stream
 		var at time.Duration
+		stopByHandler := 0
+		handlerStopped := make(chan struct{}, 1)
+		if workers >= 2 && tp.Intn("handlerstop", 5) == 1 {
+			// a "shut down" request: its handler calls Stop on the server it runs on (another worker keeps taking
+			// requests off the queue meanwhile). Stop and Serve return as for a Stop from outside.
+			rc.Fault("stop-called-from-a-handler")
+			stopByHandler = 1 + tp.Intn("handlerstop", nreq)
+			h.stopFn = func() {
+				stopInvokedStep = s.Step
+				stopErr = srv.Stop()
+				stopReturnedStep = s.Step
+				simrt.Send(siteStop, handlerStopped, struct{}{})
+			}
+		}
 		for i := 0; i < nreq; i++ {
 			id := i + 1
-			h.reqs[id] = &drainReq{id: id, dur: durChoices[tp.Intn("peer", len(durChoices))]}
-			if tp.Intn("noreply", 12) == 11 {
+			h.reqs[id] = &drainReq{id: id, dur: durChoices[tp.Intn("peer", len(durChoices))], callsStop: id == stopByHandler}
+			if tp.Intn("noreply", 12) == 11 && id != stopByHandler {
 				// somebody publishes to the served subject without a reply subject: discarded, and nothing else suffers
 				h.reqs[id].noReply = true
 				rc.Fault("request-without-reply-subject")
@@ -262,20 +281,24 @@ func natsdrainHarness(rc *RunCtx) {
 			}
 			s.AddEvent(fmt.Sprintf("peer:req:%03d", id), at, func() { inject(id) })
 		}
-		if stopAfter > 0 {
-			simrt.Recv(siteStop, stopC)
-		}
-		stopInvokedStep = s.Step
-		for _, t := range s.Tasks() {
-			if t.State == "native" && strings.Contains(t.SiteKey, "nats_server.go handler/send") {
-				rc.Probe("stop-while-callback-blocked-on-full-queue")
+		if stopByHandler > 0 {
+			simrt.Recv(siteStop, handlerStopped)
+		} else {
+			if stopAfter > 0 {
+				simrt.Recv(siteStop, stopC)
 			}
+			stopInvokedStep = s.Step
+			for _, t := range s.Tasks() {
+				if t.State == "native" && strings.Contains(t.SiteKey, "nats_server.go handler/send") {
+					rc.Probe("stop-while-callback-blocked-on-full-queue")
+				}
+			}
+			if delivered < nreq {
+				rc.Fault("stop-mid-stream")
+			}
+			stopErr = srv.Stop()
+			stopReturnedStep = s.Step
 		}
-		if delivered < nreq {
-			rc.Fault("stop-mid-stream")
-		}
-		stopErr = srv.Stop()
-		stopReturnedStep = s.Step
 		for i := 0; i < nafter*len(subjects); i++ {
 			id := 1000 + i
 			h.reqs[id] = &drainReq{id: id}
